@@ -47,7 +47,7 @@ COMPONENTS = {
     "stub_or_harness": ["import-sequence generator", "namespace invariant checker (child side)", "spec generator"],
 }
 FAULT_KINDS = ["first_import_order"]
-PROBES = ["library_used_before_namespace_walk", "first_import_generated_leaf", "first_import_net_packet_module", "import_as_form", "star_import_form",
+PROBES = ["package_tree_walked_and_imported", "library_used_before_namespace_walk", "first_import_generated_leaf", "first_import_net_packet_module", "import_as_form", "star_import_form",
           "first_import_static_leaf", "first_import_generated_package"]
 CHILD = os.path.join(VERIF_DIR, "sim", "child.py")
 
@@ -93,8 +93,18 @@ def generate(streams, tier):
     rng = streams.get("spec")
     tree = specgen.gen_tree(rng, "small" if rng.random() < 0.5 else "full")
     prng = streams.get("plan")
-    return {"tree": tree, "tier": tier, "order_seed": prng.randrange(1 << 30),
+    plan = {"tree": tree, "tier": tier, "order_seed": prng.randrange(1 << 30),
             "sequences": 6 if tier == "quick" else 20}
+    if prng.random() < 0.1:
+        # a protocol type that happens to be called like the one helper name the hand-written modules leak into the
+        # top-level package (`Optional`, through a star-import of a module that imports it from typing).  A
+        # self-contained struct without optional members of its own: valid for the generator as it stands.
+        rel = prng.choice(sorted(r for r in tree if "<protocol>" in tree[r]))
+        if 'name="Optional"' not in tree[rel]:
+            tree[rel] = tree[rel].replace("</protocol>", '    <struct name="Optional">\n        <field name="weight" type="char"/>\n'
+                                                         '    </struct>\n</protocol>', 1)
+            plan["helper_named_type"] = rel
+    return plan
 
 
 # The public classes, functions and constants of the hand-written modules as documented for the pinned version
@@ -262,8 +272,11 @@ def execute(plan, env):
         exercise = (len(sequences) + sequences.index(seq) + plan["order_seed"]) % 3 == 0
         if exercise:
             res.count("probe.library_used_before_namespace_walk")
+        walk = (len(sequences) + sequences.index(seq) + plan["order_seed"]) % 4 == 1
+        if walk:
+            res.count("probe.package_tree_walked_and_imported")
         job = {"sys_path": [ws.src], "steps": [{"op": "namespace", "imports": seq, "modules": documented, "names": names,
-                                                "exercise": exercise, "gen_packages": gen_packages}]}
+                                                "exercise": exercise, "gen_packages": gen_packages, "walk": walk}]}
         envv = dict(os.environ, PYTHONHASHSEED="0", PYTHONDONTWRITEBYTECODE="1")
         envv.pop("PYTHONPATH", None)
         p = subprocess.run([sys.executable, CHILD], input=json.dumps(job), capture_output=True, text=True, env=envv, timeout=600)
@@ -286,7 +299,7 @@ def execute(plan, env):
         if viol is None and problems:
             kind, what, detail = problems[0]
             generic = what
-            if kind in ("module-path", "module-path-missing", "module-import", "import-form", "import-form-identity"):
+            if kind in ("module-path", "module-path-missing", "module-import", "import-form", "import-form-identity", "module-loaded-twice", "package-walk"):
                 generic = what if "._generated" not in what else "generated"
                 viol = (kind, generic, f"after imports {seq}: {what}: {detail} ({len(problems)} problems in total, e.g. "
                         f"{[p[1] for p in problems[:6]]})")
